@@ -87,7 +87,7 @@ def _refusal_at(ctx: Ctx, f: Func, n: N, refuse=None) -> Optional[Tuple[str, str
     return f"failing search for argument {'/'.join(used)}", e.field
 
 
-@rule("ORDER-VBM", ["C13"], floor=8, section="3.3")
+@rule("ORDER-VBM", ["C13", "C01"], floor=8, section="3.3")
 def order_vbm(ctx: Ctx) -> List[Ob]:
     """validate before mutate: in every public mutator no CFG path runs a structural write on existing state and then a refusal (raise / argument assert / failing list search / refusing callee) without the inverse write in between"""
     obs: List[Ob] = []
@@ -128,7 +128,13 @@ def order_vbm(ctx: Ctx) -> List[Ob]:
                 else:
                     w, p = witness
                     es = si.effects_at(w)
-                    obs.append(ctx.ob("ORDER-VBM", ["C13"], g, key, r.ast, False,
+                    # a refusal raised *by the operation itself* (not by a per-item callee of a batch) between the two halves
+                    # of a link - the node is registered but not yet in a child list, or taken out of its old list but
+                    # not yet re-linked - also leaves an ill-formed tree (C01: count != reachable)
+                    half_link = any((e_.op == "setitem" and e_.field == "_node_by_id") or (e_.op in ("pop", "remove", "delitem") and e_.field == "_children") for e_ in es)
+                    local_refusal = not rkey.startswith("call ") or rkey == "call _index_of may refuse"
+                    vprops = ["C13", "C01"] if half_link and local_refusal and g.qualname in ("Node.add_child", "Node.move_to", "TypedNode.add_child", "TypedNode.move_to") else ["C13"]
+                    obs.append(ctx.ob("ORDER-VBM", vprops, g, key, r.ast, False,
                                       f"{why} after the tree was already changed by `{norm(w.ast)}` "
                                       f"({es[0].op} {es[0].field}): the refused call leaves a partial change",
                                       describe_path(p)))
